@@ -71,6 +71,7 @@ void gvt_global_init(void)
  */
 void gvt_start_processing(void)
 {
+	VERIF_TRACE(VT_GVT_PHASE, thread_phase, thread_phase_A, verif_bits(SIMTIME_MAX), 1);
 	gvt_accumulator = SIMTIME_MAX;
 	thread_phase = thread_phase_A;
 }
@@ -116,12 +117,14 @@ static bool gvt_thread_phase_run(void)
 			gvt_accumulator = min(gvt_accumulator, msg_queue_time_peek());
 			thread_phase = thread_phase_B;
 			atomic_fetch_add_explicit(&c_b, 1U, memory_order_relaxed);
+			VERIF_TRACE(VT_GVT_PHASE, thread_phase_A, thread_phase_B, verif_bits(gvt_accumulator), 0);
 			break;
 		case thread_phase_B:
 			if(atomic_load_explicit(&c_b, memory_order_relaxed) != global_config.n_threads)
 				break;
 			thread_phase = thread_phase_C;
 			atomic_fetch_add_explicit(&c_a, 1U, memory_order_relaxed);
+			VERIF_TRACE(VT_GVT_PHASE, thread_phase_B, thread_phase_C, verif_bits(gvt_accumulator), 0);
 			break;
 		case thread_phase_C:
 			if(atomic_load_explicit(&c_a, memory_order_relaxed) != global_config.n_threads)
@@ -129,12 +132,14 @@ static bool gvt_thread_phase_run(void)
 			reducing_p[rid] = min(gvt_accumulator, msg_queue_time_peek());
 			thread_phase = thread_phase_D;
 			atomic_fetch_sub_explicit(&c_b, 1U, memory_order_release);
+			VERIF_TRACE(VT_GVT_PHASE, thread_phase_C, thread_phase_D, verif_bits(reducing_p[rid]), 0);
 			break;
 		case thread_phase_D:
 			if(atomic_load_explicit(&c_b, memory_order_acquire))
 				break;
 			thread_phase = thread_phase_idle;
 			atomic_fetch_sub_explicit(&c_a, 1U, memory_order_relaxed);
+			VERIF_TRACE(VT_GVT_PHASE, thread_phase_D, thread_phase_idle, 0, 0);
 			return true;
 		default:
 			__builtin_unreachable();
@@ -180,6 +185,7 @@ static bool gvt_node_phase_run(void)
 				break;
 
 			gvt_phase = gvt_phase ^ (!node_phase);
+			VERIF_TRACE(VT_GVT_PHASE, thread_phase_idle, thread_phase_A, verif_bits(gvt_accumulator), 2);
 			thread_phase = thread_phase_A;
 			++node_phase;
 			break;
@@ -299,6 +305,7 @@ void gvt_msg_drain(void)
 		// wait for the completion of the round itself, not for a non-zero value: a computed GVT of 0.0 is
 		// indistinguishable from the "no GVT yet" return value of gvt_phase_run()
 		while(1) {
+			VERIF_YIELD(12);
 			if(thread_phase) {
 				if(gvt_node_phase_run())
 					break;
